@@ -252,7 +252,7 @@ func vDoRequest(h http.Handler, n int, host, path string) {
 
 // wrappers that put the deploy's internal steps on the trace (a stub may call the function it replaces)
 
-//verif:stub (*github.com/basecamp/kamal-proxy/internal/server.Router).installService harness=HarnessDeployGate,HarnessRedeployTraffic,HarnessDrainQuiescent,HarnessDrainQuiescentDirected,HarnessPauseHold,HarnessNoProbesAfter,HarnessCmdMix
+//verif:stub (*github.com/basecamp/kamal-proxy/internal/server.Router).installService harness=HarnessDeployGate,HarnessRedeployTraffic,HarnessDrainQuiescent,HarnessDrainQuiescentDirected,HarnessPauseHold,HarnessPauseHoldDirected,HarnessNoProbesAfter,HarnessCmdMix
 func stubInstallServiceTraced(r *Router, s *Service) error {
 	err := r.installService(s)
 	vEmit(vEvent{kind: "swap", ok: err == nil})
@@ -281,14 +281,14 @@ func vTraceString() string {
 	return s
 }
 
-//verif:stub (*github.com/basecamp/kamal-proxy/internal/server.Target).Drain harness=HarnessDrainQuiescent,HarnessDrainQuiescentDirected,HarnessPauseHold,HarnessRedeployTraffic,HarnessCmdMix
+//verif:stub (*github.com/basecamp/kamal-proxy/internal/server.Target).Drain harness=HarnessDrainQuiescent,HarnessDrainQuiescentDirected,HarnessPauseHold,HarnessPauseHoldDirected,HarnessRedeployTraffic,HarnessCmdMix
 func stubTargetDrainTraced(t *Target, timeout time.Duration) {
 	vEmit(vEvent{kind: "drain_begin", target: t.Target()})
 	t.Drain(timeout)
 	vEmit(vEvent{kind: "drain_end", target: t.Target()})
 }
 
-//verif:stub (*github.com/basecamp/kamal-proxy/internal/server.Router).serviceForRequest harness=HarnessDrainQuiescent,HarnessDrainQuiescentDirected,HarnessPauseHold,HarnessRedeployTraffic,HarnessCmdMix
+//verif:stub (*github.com/basecamp/kamal-proxy/internal/server.Router).serviceForRequest harness=HarnessDrainQuiescent,HarnessDrainQuiescentDirected,HarnessPauseHold,HarnessPauseHoldDirected,HarnessRedeployTraffic,HarnessCmdMix
 func stubServiceForRequestTraced(r *Router, req *http.Request) (*Service, string) {
 	s, p := r.serviceForRequest(req)
 	vEmit(vEvent{kind: "lookup", req: vRequestNumber(req), obj: s})
@@ -300,16 +300,53 @@ func stubServiceForRequestTraced(r *Router, req *http.Request) (*Service, string
 	return s, p
 }
 
-//verif:stub (*github.com/basecamp/kamal-proxy/internal/server.PauseController).Wait harness=HarnessDrainQuiescent,HarnessDrainQuiescentDirected,HarnessPauseHold,HarnessCmdMix
+//verif:stub (*github.com/basecamp/kamal-proxy/internal/server.PauseController).Wait harness=HarnessDrainQuiescent,HarnessDrainQuiescentDirected,HarnessPauseHold,HarnessPauseHoldDirected,HarnessCmdMix
 func stubPauseWaitTraced(p *PauseController) (PauseWaitAction, string) {
-	vEmit(vEvent{kind: "gate_enter"})
+	vAtGate++
 	a, m := p.Wait()
+	vAtGate--
 	vEmit(vEvent{kind: "gate_leave", status: int(a)})
 	if vHoldAfterGate {
 		vHeld++
 		vBlockUntil(func() bool { return vRelease })
 	}
 	return a, m
+}
+
+var vAtGate int
+
+// the state the gate actually observed (emitted atomically with the read)
+//
+//verif:stub (*github.com/basecamp/kamal-proxy/internal/server.PauseController).getWaitState harness=HarnessDrainQuiescent,HarnessDrainQuiescentDirected,HarnessPauseHold,HarnessPauseHoldDirected,HarnessCmdMix
+func stubGetWaitStateTraced(p *PauseController) (PauseState, string, chan bool, <-chan time.Time) {
+	vAtomicBegin()
+	st, msg, ch, fail := p.getWaitState()
+	vEmit(vEvent{kind: "gate_enter", status: int(st)})
+	vAtomicEnd()
+	return st, msg, ch, fail
+}
+
+// the instants at which pause / stop / resume take effect (emitted atomically with the state change)
+//
+//verif:stub (*github.com/basecamp/kamal-proxy/internal/server.PauseController).Pause harness=HarnessDrainQuiescent,HarnessDrainQuiescentDirected,HarnessPauseHold,HarnessPauseHoldDirected,HarnessCmdMix
+func stubPauseTraced(p *PauseController, failAfter time.Duration) error {
+	vAtomicBegin()
+	err := p.Pause(failAfter)
+	vEmit(vEvent{kind: "pause_effective"})
+	vAtomicEnd()
+	return err
+}
+
+//verif:stub (*github.com/basecamp/kamal-proxy/internal/server.PauseController).setState harness=HarnessDrainQuiescent,HarnessDrainQuiescentDirected,HarnessPauseHold,HarnessPauseHoldDirected,HarnessCmdMix
+func stubSetStateTraced(p *PauseController, newState PauseState, message string) {
+	vAtomicBegin()
+	p.setState(newState, message)
+	if newState == PauseStateStopped {
+		vEmit(vEvent{kind: "stop_effective"})
+	} else {
+		vEmit(vEvent{kind: "resume_effective"})
+	}
+	vAtomicEnd()
 }
 
 func vIndexOf(kind string, req int) int {
@@ -350,4 +387,17 @@ func vGateEnterBefore(gi int) int {
 		}
 	}
 	return -1
+}
+
+// directed schedule for the "request past the gate meets a draining target" history: the drain is suspended right
+// after the target entered the draining state, until the held client has been answered
+var vSuspendDrain bool
+
+//verif:stub (*github.com/basecamp/kamal-proxy/internal/server.Target).pendingRequestsToCancel harness=HarnessPauseHoldDirected
+func stubPendingRequestsSuspended(t *Target) inflightMap {
+	if vSuspendDrain {
+		vRelease = true
+		vBlockUntil(func() bool { return vClientResults[0] != nil })
+	}
+	return t.pendingRequestsToCancel()
 }
